@@ -8,7 +8,6 @@ import (
 	simtypes "github.com/cosmos/cosmos-sdk/types/simulation"
 	minttypes "github.com/cosmos/cosmos-sdk/x/mint/types"
 
-	"github.com/tendermint/fundraising/x/fundraising/keeper"
 	"github.com/tendermint/fundraising/x/fundraising/types"
 )
 
@@ -17,10 +16,6 @@ var testCoinDenoms = []string{
 	"denomb",
 	"denomc",
 	"denomd",
-}
-
-func init() {
-	keeper.EnableAddAllowedBidder = true
 }
 
 // FindAccount find a specific address from an account list
